@@ -611,14 +611,15 @@ pub(crate) enum Tag {
 }
 
 impl Tag {
-    /// Get the tag field name, applying inflection if using inflectable variant
-    pub(crate) fn field_name(&self, root_attrs: &RootAttributes) -> String {
+    /// Get the tag field name in the given name style: an inflectable name is prefixed and
+    /// inflected like a field name, an exact name is never changed
+    pub(crate) fn field_name(&self, root_attrs: &RootAttributes, name_style: NameStyle) -> String {
         match self {
             Tag::Inflectable { name, .. } => root_attrs
                 .prefix
                 .as_ref()
-                .map(|p| p.apply(name, root_attrs.rename_all))
-                .unwrap_or_else(|| root_attrs.rename_all.apply(name)),
+                .map(|p| p.apply(name, name_style))
+                .unwrap_or_else(|| name_style.apply(name)),
             Tag::Exact { name, .. } => name.clone(),
         }
     }
